@@ -333,11 +333,11 @@ def gen_numbers(rng, tier):
         xs += [float(2 ** k), float(2 ** k + 2 ** (k - 52)), -float(3 * 2 ** (k - 1))]
     xs += [float(10 ** k) for k in range(0, 23)] + [float(10 ** k + 10 ** (k - 15)) for k in range(16, 23)]
     # integer-valued and short decimals
-    for _ in range(700 if not big else 20000):
+    for _ in range(700 if not big else 5000):
         xs.append(float(rng.randrange(-10 ** rng.randrange(1, 17), 10 ** rng.randrange(1, 17))))
         xs.append(rng.randrange(1, 10 ** rng.randrange(1, 8)) / 10 ** rng.randrange(0, 12))
     # random bit patterns, exponent field uniform
-    n_rand = 3500 if not big else 600000
+    n_rand = 3500 if not big else 60000
     for _ in range(n_rand):
         e = rng.randrange(0, 2047)
         m = rng.getrandbits(52)
@@ -353,7 +353,7 @@ def gen_numbers(rng, tier):
         xs.append(bits_to_float((rng.getrandbits(1) << 63) | (e << 52) | m))
     # the ES6 switch regions 1e-7..1e-5 and 1e20..1e22, and repr's 1e-5..1e-3, 1e15..1e17
     for lo, hi in ((1e-8, 1e-5), (1e19, 1e23), (1e-6, 1e-2), (1e14, 1e18)):
-        for _ in range(300 if not big else 20000):
+        for _ in range(300 if not big else 4000):
             xs.append(math.exp(rng.uniform(math.log(lo), math.log(hi))) * rng.choice((1, -1)))
     return xs
 
@@ -362,7 +362,7 @@ def gen_ints(rng, tier):
     zs = [0, 1, -1, 7, 10, 100, -1000, 2 ** 53, -(2 ** 53), 2 ** 53 - 1, 2 ** 31, 2 ** 32, 65535, 10 ** 15, 10 ** 16 // 2,
           9007199254740990, 123456789012345, 1000000000000000, 999999999999999, 4503599627370496]
     zs += [10 ** k for k in range(0, 16)] + [-(10 ** k) for k in range(0, 16)]
-    for _ in range(600 if tier != "thorough" else 20000):
+    for _ in range(600 if tier != "thorough" else 5000):
         zs.append(rng.randrange(-(2 ** rng.randrange(1, 54)), 2 ** rng.randrange(1, 54)))
     return zs
 
@@ -470,7 +470,7 @@ FIXED_DOCS = [
 
 def gen_docs(rng, tier, numbers, ints):
     finite = [x for x in numbers if x == x and x not in (math.inf, -math.inf)]
-    n = 1000 if tier != "thorough" else 40000
+    n = 1000 if tier != "thorough" else 8000
     groups = []          # list of lists of values (first = base, rest = deep shuffles)
     for v in FIXED_DOCS:
         groups.append([v])
